@@ -532,6 +532,16 @@ def run_shard(spec: dict, rec) -> None:  # noqa: ANN001
         elif r < 0.45:
             files, descs = graphs.gen_allring(rng)
             rec.count("all_composition_graphs")
+        elif r < 0.53:
+            # chains over 3-4 packages: only a prefix is loaded, the rest must be pulled in by resolve_aliases itself
+            files, pkgs = graphs.gen_extchain(rng)
+            rec.count("external_chain_graphs")
+            npre = rng.randint(1, len(pkgs) - 1)
+            order = pkgs[:npre] if rng.random() < 0.7 else rng.sample(pkgs, npre)
+            if rng.random() < 0.3:
+                order = [*order[:1], "resolve", *order[1:]]
+            run_case(rec, files, None, order, rng.random() < 0.7, rng.choice([True, True, True, None, False]), steps)
+            continue
         else:
             files, descs = graphs.gen_graph(rng, hostile=spec["hostile"])
         order = rng.choice([["p", "q"], ["q", "p"], ["p"], ["q", "p"], ["p", "resolve", "q"], ["q", "resolve", "p"],
